@@ -399,6 +399,87 @@ def run(ctx: Ctx, rs: RuleSet, tier: str):
            'config / set / fiddler are applied inside the draining loop, in '
            'the order they are popped', ctx.loc(val, val.node))
 
+  # the queue receives exactly what was parsed, in that order
+  pa = ctx.func(f'{FL}.FiddleFlag.parse')
+  ok = False
+  why = 'no extension of the directive queue found'
+  for c in ctx.calls(pa):
+    if isinstance(c.func, ast.Attribute) and c.func.attr == 'extend' and unparse(
+        c.func.value).endswith('._remaining_directives') and len(c.args) == 1:
+      a = c.args[0]
+      defs = [a] if not isinstance(a, ast.Name) else roles.defs_of(pa, a.id)
+      ok = len(defs) == 1 and isinstance(defs[0], ast.Call) and unparse(
+          defs[0].func) == f'{pa.params[0]}._parse' and [
+              unparse(x) for x in defs[0].args] == [pa.params[1]]
+      why = ('the queue is extended with self._parse(arguments), unfiltered '
+             'and in order' if ok else
+             f'`{unparse(c)[:60]}`: what is queued is not simply '
+             'self._parse(arguments) (it is filtered, reordered or rebuilt): '
+             'a directive given twice on the command line is applied once, or '
+             'in another position')
+  rs.check(ok, rule, f'{pa.qualname}:queued-as-parsed', why,
+           ctx.loc(pa, pa.node))
+
+  # ---- FRESH: an override value is parsed anew for every override
+  rule = 'FRESH.override-value'
+  rs.declare(rule, 'parse_value returns a newly parsed object (no cache '
+             'between overrides)', 1)
+  pv = ctx.func(f'{U}.parse_value')
+  closure = ctx.cg.reachable([pv.qualname], kinds=('exact', 'nested'))
+  cached = []
+  for q in sorted(closure):
+    f2 = p.funcs.get(q)
+    if f2 is None or not q.startswith('fiddle.'):
+      continue
+    if any('cache' in unparse(d) for d in f2.decorators):
+      cached.append(q)
+  rets = [r for r in walk_function(pv.node) if isinstance(r, ast.Return)]
+  direct = all(isinstance(r.value, ast.Constant) or (
+      isinstance(r.value, ast.Call) and unparse(r.value.func) ==
+      'ast.literal_eval') or (isinstance(r.value, ast.Call) and p.resolve(
+          r.value.func, pv) in p.funcs) for r in rets)
+  rs.check(not cached and direct and bool(rets), rule, pv.qualname,
+           'every return is a constant or a fresh ast.literal_eval(value)'
+           if not cached and direct else
+           (f'parse_value goes through the cached function {cached[0]}: two '
+            'overrides with the same text (`a=[0, 0]`, `b=[0, 0]`) receive '
+            'the same list object, so the written configuration has sharing '
+            'the original did not have and a later edit of one leaf changes '
+            'the other' if cached else
+            'a return of parse_value is not a fresh literal'),
+           ctx.loc(pv, pv.node))
+
+  # ---- KEY: the printers' argument normalisation keeps every key
+  rule = 'KEY.rearranged-arguments'
+  rs.declare(rule, 'normalising the argument order for printing moves each '
+             'value under the key it had', 1)
+  ra = ctx.func(f'{PR}._rearrange_buildable_args')
+  olds = roles.assigned_from(ra, lambda e: isinstance(e, ast.Call) and unparse(
+      e.func) == 'dict' and e.args and unparse(e.args[0]).endswith(
+          '.__arguments__'))
+  n_moves = 0
+  bad = None
+  for st in walk_function(ra.node):
+    if isinstance(st, ast.Assign) and isinstance(st.targets[0], ast.Subscript):
+      v = st.value
+      src_key = None
+      if isinstance(v, ast.Call) and isinstance(
+          v.func, ast.Attribute) and v.func.attr == 'pop' and unparse(
+              v.func.value) in olds and v.args:
+        src_key = v.args[0]
+      elif isinstance(v, ast.Subscript) and unparse(v.value) in olds:
+        src_key = v.slice
+      if src_key is not None:
+        n_moves += 1
+        if unparse(src_key) != unparse(st.targets[0].slice):
+          bad = st
+  rs.check(n_moves >= 1 and bad is None, rule, ra.qualname,
+           f'{n_moves} move(s), each under its own key' if bad is None else
+           f'`{unparse(bad)[:70]}` stores a value under a different key than '
+           'the one it had: the printed path (e.g. `[0]`) then names another '
+           'argument than the one holding the value, and writing it back '
+           'overwrites that other argument', ctx.loc(ra, bad or ra.node))
+
   # ---- INV: ZlibJSONSerializer
   rule = 'INV.flag-serializer'
   rs.declare(rule, 'deserialize is the mirror image of serialize', 2)
